@@ -1467,13 +1467,21 @@ class World:
         if final:
             handle.ws = None
             return
-        if same:
-            handle.ws.open()
-            self.sim.probe("reopen_same")
-        else:
-            handle.ws = None
-            handle.ws = Workspace(handle.path, mode="r+")
-            self.sim.probe("reopen_fresh")
+        try:
+            if same:
+                handle.ws.open()
+                self.sim.probe("reopen_same")
+            else:
+                handle.ws = None
+                handle.ws = Workspace(handle.path, mode="r+")
+                self.sim.probe("reopen_fresh")
+        except Exception as err:  # the file the library wrote cannot be opened by the library
+            import traceback
+
+            where = traceback.extract_tb(err.__traceback__)[-1].name
+            prop = self.prop if self.prop in ("C01", "C02", "C04", "C11") else "C01"
+            raise Violation(prop, "reopen_fails", f"re-opening the closed file raised {type(err).__name__}: {str(err)[:120]} (in {where})",
+                            {"exc": type(err).__name__, "at": where}) from None
         for z in handle.model.zombies.values():
             z["collected"] = True
         for orc in self.oracles:
